@@ -176,3 +176,55 @@ class SelfCallShapeEngine:
         if not obls:
             raise StaleContract(f"{c.qualname}: no self-calls found")
         return obls
+
+
+class BindingTableEngine:
+    """obligations over a class body: class-level names are bound to the expected objects (e.g. the callbacks of a lark
+    Transformer to functions of the `operator` module), read from the import statements and assignments of the real class;
+    optionally: a module-level grammar string maps each operator token to the expected callback name."""
+
+    def __init__(self, registry, opts=None):
+        self.reg = registry
+        self.trivial_frames = 0
+
+    def verify(self, c, fdef, classctx=None):
+        if classctx is None:
+            raise StaleContract(f"{c.qualname}: not a method")
+        bound = {}
+        for n in classctx.body:
+            if isinstance(n, ast.ImportFrom):
+                for a in n.names:
+                    bound[a.asname or a.name] = f"{n.module}.{a.name}"
+            elif isinstance(n, ast.Assign) and len(n.targets) == 1 and isinstance(n.targets[0], ast.Name):
+                bound[n.targets[0].id] = ast.unparse(n.value)
+            elif isinstance(n, ast.FunctionDef):
+                bound[n.name] = "<method>"
+        obls = []
+        for name, want in c.extra.get("bindings", {}).items():
+            got = bound.get(name)
+            ob = Obligation(f"{c.module}:{classctx.name}#binds:{name}=={want}", "post", [], z3.BoolVal(got == want), c.qualname, classctx.lineno)
+            obls.append(ob)
+        g = c.extra.get("grammar")
+        if g:
+            from . import extract
+            sm = extract.module(c.module)
+            text = None
+            for n in sm.tree.body:
+                if isinstance(n, ast.Assign) and isinstance(n.targets[0], ast.Name) and n.targets[0].id == g["name"] \
+                        and isinstance(n.value, ast.Constant):
+                    text = n.value.value
+            rules = []
+            if text is not None:
+                for ln in text.splitlines():
+                    if "->" in ln.split('"->"')[-1] and "|" in ln or ln.strip().startswith("|") or ":" in ln:
+                        body = ln.split(":", 1)[-1] if ln.strip().startswith("?") or ln.strip()[:1].isalpha() else ln
+                        body = body.strip().lstrip("|").strip()
+                        if "->" in body.replace('"->"', ""):
+                            lhs, cb = body.rsplit("->", 1)
+                            rules.append((" ".join(lhs.split()), cb.strip()))
+            for pat, cb in g["rules"]:
+                ok = (" ".join(pat.split()), cb) in rules
+                obls.append(Obligation(f"{c.module}:{g['name']}#rule:{pat} -> {cb}", "post", [], z3.BoolVal(ok), c.qualname, 0))
+            extra_cbs = {cb for _, cb in rules} - {cb for _, cb in g["rules"]}
+            obls.append(Obligation(f"{c.module}:{g['name']}#no-other-callbacks:{sorted(extra_cbs)}", "post", [], z3.BoolVal(not extra_cbs), c.qualname, 0))
+        return obls
